@@ -56,6 +56,7 @@ type Engine struct {
 	curPureDynamic  bool
 	debugPanics     bool
 	keys            []string
+	defaults        map[string]*Contract
 	ginit           map[*ssa.Global][]globalInitFact
 	bodySum         map[*ssa.Function]map[string]bool
 }
@@ -68,10 +69,17 @@ type chanHooks struct {
 }
 
 func NewEngine(repoDir, verifDir string) *Engine {
+	defer func() {}()
+	eng := newEngine(repoDir, verifDir)
+	theEngine = eng
+	return eng
+}
+
+func newEngine(repoDir, verifDir string) *Engine {
 	return &Engine{repoDir: repoDir, verifDir: verifDir, allPkgs: map[string]*packages.Package{}, contracts: map[string]*Contract{}, specs: map[string]*specFn{},
 		fnByKey: map[string]*ssa.Function{}, globals: map[*ssa.Global]int{}, funcs: map[*ssa.Function]int{}, srcCache: map[string][]string{},
 		writeSum: map[*ssa.Function]map[string]bool{}, implCache: map[string][]impl{}, sizeCache: map[*ssa.Function]int{},
-		inlineLimit: 400, dispatchLimit: 6, pureExterns: map[string]bool{}, inlineExterns: map[string]bool{}}
+		inlineLimit: 400, dispatchLimit: 10, pureExterns: map[string]bool{}, inlineExterns: map[string]bool{}}
 }
 
 func (eng *Engine) load(patterns []string) error {
@@ -317,6 +325,31 @@ func (eng *Engine) contractFor(fn *ssa.Function) *Contract {
 	return eng.contracts[shortFn(fn)]
 }
 
+func (eng *Engine) defaultContract(fn *ssa.Function) *Contract {
+	key := shortFn(fn)
+	if ct, ok := eng.defaults[key]; ok {
+		return ct
+	}
+	pkgName, pkgPath := "", ""
+	if fn.Pkg != nil {
+		pkgName, pkgPath = fn.Pkg.Pkg.Name(), fn.Pkg.Pkg.Path()
+	}
+	ct := &Contract{Key: key, PkgName: pkgName, PkgPath: pkgPath, Loops: map[int]*LoopSpec{}, Where: "default contract", Default: true}
+	if recv := fn.Signature.Recv(); recv != nil && len(fn.Params) > 0 {
+		if _, isPtr := recv.Type().Underlying().(*types.Pointer); isPtr && fn.Params[0].Name() != "" && fn.Params[0].Name() != "_" {
+			cl := &Clause{Text: fn.Params[0].Name(), Where: "default contract"}
+			if err := cl.parse(); err == nil {
+				ct.Modifies = []*Clause{cl}
+			}
+		}
+	}
+	if eng.defaults == nil {
+		eng.defaults = map[string]*Contract{}
+	}
+	eng.defaults[key] = ct
+	return ct
+}
+
 func (eng *Engine) specFunc(full string) *specFn { return eng.specs[full] }
 
 func (eng *Engine) specBySSA(fn *ssa.Function) *specFn {
@@ -493,9 +526,23 @@ func rootsFresh(v ssa.Value, seen map[ssa.Value]bool) bool {
 		if b, ok := x.Call.Value.(*ssa.Builtin); ok && b.Name() == "append" {
 			return rootsFresh(x.Call.Args[0], seen)
 		}
+		// results that a verified contract declares fresh
+		if f, ok := x.Call.Value.(*ssa.Function); ok && theEngine != nil {
+			if ct := theEngine.contractFor(f); ct != nil {
+				for _, en := range ct.Ensures {
+					if strings.Contains(en.Text, "fresh(result)") {
+						return true
+					}
+				}
+			}
+		}
+	case *ssa.UnOp:
+		// pointer loaded from a field of a fresh object that was set by a fresh-returning constructor is not tracked
 	}
 	return false
 }
+
+var theEngine *Engine
 
 func (eng *Engine) instrWrites(in ssa.Instruction, w map[string]bool, stack map[*ssa.Function]bool) {
 	switch x := in.(type) {
@@ -738,6 +785,32 @@ func (eng *Engine) effectFreeRec(fn *ssa.Function, stack map[*ssa.Function]bool)
 					}
 					if ct := eng.contractFor(f); ct != nil {
 						if ct.ModifiesNothing() {
+							continue
+						}
+						if ct.ModifiesAll {
+							return false
+						}
+						// modifies targets rooted in a parameter whose argument is a fresh local object
+						okAll := true
+						for _, m := range ct.Modifies {
+							root := m.Text
+							for i, ch := range root {
+								if !(ch == '_' || ch >= 'a' && ch <= 'z' || ch >= 'A' && ch <= 'Z' || ch >= '0' && ch <= '9') {
+									root = root[:i]
+									break
+								}
+							}
+							idx := -1
+							for i, p := range f.Params {
+								if p.Name() == root {
+									idx = i
+								}
+							}
+							if idx < 0 || idx >= len(c.Args) || !rootsFresh(c.Args[idx], map[ssa.Value]bool{}) {
+								okAll = false
+							}
+						}
+						if okAll {
 							continue
 						}
 						return false
